@@ -607,13 +607,58 @@ func runC09(c *Ctx) {
 
 	c.rule("C09.O5", "what an update adds is watched: in updateFilter every input of the update ends up in ro.watchInputs (what spends are matched against) and its script in ro.watchList (what block filters are matched against) - the whole slice appended on every path, or a loop over update.inputs in which every pass reaches the append; an input left out because its outpoint 'is already watched' drops every script-only watch after the first (they all carry the zero outpoint), and spends of those scripts are never delivered", func() {
 		fn := c.fn("(*neutrino.rescanOptions).updateFilter")
-		inputsF := c.field("neutrino", "updateOptions", "inputs")
+		// an element may be left out only because the very same thing is
+		// watched already: the skip lies behind a comparison of the address's
+		// full identity (its string form, its encoded form or its output
+		// script), never of a part of it (two kinds of address share one
+		// key hash)
+		sameThing := ir.Cut{}
+		fullIdentity := func(v ssa.Value) bool {
+			return ir.DerivesFrom(v, func(x ssa.Value) bool {
+				call, ok := x.(*ssa.Call)
+				if !ok {
+					return false
+				}
+				name := ""
+				if call.Call.IsInvoke() {
+					name = call.Call.Method.Name()
+				} else if f := call.Call.StaticCallee(); f != nil {
+					name = f.Name()
+				}
+				return name == "String" || name == "EncodeAddress" || name == "PayToAddrScript"
+			})
+		}
+		ir.Instrs(fn, func(in ssa.Instruction) {
+			switch x := in.(type) {
+			case *ssa.BinOp:
+				if x.Op == token.EQL && fullIdentity(x.X) && fullIdentity(x.Y) {
+					for _, b := range ir.EqBranches(x) {
+						sameThing[b.Edge()] = true
+					}
+				}
+			case *ssa.Call:
+				if f := x.Call.StaticCallee(); f != nil && f.Pkg != nil && f.Pkg.Pkg.Path() == "bytes" && f.Name() == "Equal" && fullIdentity(x.Call.Args[0]) && fullIdentity(x.Call.Args[1]) {
+					for _, b := range ir.TrueBranches(x) {
+						if b.Pol >= 0 {
+							sameThing[b.Edge()] = true
+						}
+					}
+				}
+			}
+		})
+		inputsF0 := c.field("neutrino", "updateOptions", "inputs")
+		addrsF := c.field("neutrino", "updateOptions", "addrs")
 		for _, spec := range []struct {
 			field string
 			what  string
-		}{{"watchInputs", "ro.watchInputs = append(ro.watchInputs, input)"}, {"watchList", "ro.watchList = append(ro.watchList, input.PkScript)"}} {
+			src   *types.Var
+		}{{"watchInputs", "ro.watchInputs = append(ro.watchInputs, input)", inputsF0}, {"watchList", "ro.watchList = append(ro.watchList, input.PkScript)", inputsF0}, {"watchAddrs", "ro.watchAddrs = append(ro.watchAddrs, addr)", addrsF}} {
+			inputsF := spec.src
 			wf := c.field("neutrino", "rescanOptions", spec.field)
 			construct := c.nm(fn) + " | every input of the update reaches " + spec.field
+			if spec.src == addrsF {
+				construct = c.nm(fn) + " | every address of the update reaches " + spec.field
+			}
 			isAppendTo := func(in ssa.Instruction) (*ssa.Call, bool) {
 				st, ok := in.(*ssa.Store)
 				if !ok || !storeToField(wf)(in) {
@@ -681,7 +726,7 @@ func runC09(c *Ctx) {
 					}
 				}
 				in := in
-				c.mustFollowIter(fn, "each input of the update ("+spec.field+")", starts, func(x ssa.Instruction) bool { return x == in }, spec.what, nil, 1)
+				c.mustFollowIter(fn, "each input of the update ("+spec.field+")", starts, func(x ssa.Instruction) bool { return x == in }, spec.what, sameThing, 1)
 			}
 			if n == 0 {
 				c.fail(construct, c.P.Pos(fn.Pos()), "update.inputs is neither appended to "+spec.field+" as a whole nor element by element in a loop over it")
